@@ -6,6 +6,8 @@ package interp
 
 import (
 	"go/types"
+
+	"gosx/smt"
 )
 
 type mentry struct {
@@ -20,6 +22,59 @@ type omap struct {
 	idx     map[any][]int // hash -> positions in entries (concrete keys only)
 	live    int
 	symKeys int // number of live entries whose key contains a symbolic value
+	// assoc: the map holds symbolic scalar keys and is an association list in
+	// which later entries shadow earlier ones (a deleted entry is a tombstone);
+	// lookups build ite-merged results instead of forking. len is then unknown.
+	assoc bool
+}
+
+// keyEqTerm returns the term for k1 == k2 when both are scalars or strings.
+func (i *interpreter) keyEqTerm(k1, k2 value) *smt.Term {
+	ex := i.ex
+	if _, ok := kindOfValue(k1); ok {
+		if _, ok2 := kindOfValue(k2); ok2 {
+			return ex.ctx.Eq(ex.term(k1), ex.term(k2))
+		}
+		return nil
+	}
+	if isStr(k1) && isStr(k2) {
+		return ex.strEqTerm(k1, k2)
+	}
+	return nil
+}
+
+// assocLookup returns the ite-merged value and presence for key k, or ok=false
+// when the entries cannot be merged (the caller then forks).
+func (m *omap) assocLookup(i *interpreter, k value, zeroVal value) (val value, found value, ok bool) {
+	ex := i.ex
+	val = zeroVal
+	var foundT *smt.Term = ex.ctx.False
+	for _, e := range m.entries {
+		eq := i.keyEqTerm(e.key, k)
+		if eq == nil {
+			return nil, nil, false
+		}
+		if eq.IsFalse() {
+			continue
+		}
+		cond := sym{eq, types.Bool}
+		var nv value = e.val
+		if e.deleted {
+			nv = zeroVal
+		}
+		if eq.IsTrue() {
+			val = nv
+			foundT = ex.ctx.Bool(!e.deleted)
+			continue
+		}
+		mv, okm := i.mergeValues(cond, nv, val)
+		if !okm {
+			return nil, nil, false
+		}
+		val = mv
+		foundT = ex.ctx.Ite(eq, ex.ctx.Bool(!e.deleted), foundT)
+	}
+	return val, mk(foundT, types.Bool), true
 }
 
 func makeMap(kt types.Type, reserve int64) value {
@@ -39,6 +94,9 @@ func hashKey(kt types.Type, k value) any {
 func (m *omap) len() int {
 	if m == nil {
 		return 0
+	}
+	if m.assoc {
+		unmodelled("len of a map with symbolic keys")
 	}
 	return m.live
 }
@@ -80,6 +138,14 @@ func (m *omap) insert(i *interpreter, k, v value) {
 	if m == nil {
 		panic(runtimeError("assignment to entry in nil map"))
 	}
+	if m.assoc || (containsSym(k) && i.keyEqTerm(k, k) != nil && m.scalarKeys(i)) {
+		// association-list mode: append, shadowing earlier entries
+		m.assoc = true
+		m.entries = append(m.entries, &mentry{key: k, val: v})
+		m.symKeys++
+		m.live++
+		return
+	}
 	if e := m.find(i, k); e != nil {
 		e.val = v
 		return
@@ -95,8 +161,24 @@ func (m *omap) insert(i *interpreter, k, v value) {
 	}
 }
 
+// scalarKeys reports whether all current keys are scalars or strings.
+func (m *omap) scalarKeys(i *interpreter) bool {
+	for _, e := range m.entries {
+		if !e.deleted && i.keyEqTerm(e.key, e.key) == nil {
+			return false
+		}
+	}
+	return true
+}
+
 func (m *omap) delete(i *interpreter, k value) {
 	if m == nil {
+		return
+	}
+	if m.assoc || (containsSym(k) && i.keyEqTerm(k, k) != nil && m.scalarKeys(i) && len(m.entries) > 0) {
+		m.assoc = true
+		m.entries = append(m.entries, &mentry{key: k, deleted: true})
+		m.symKeys++
 		return
 	}
 	if e := m.find(i, k); e != nil {
@@ -151,6 +233,9 @@ func (i *interpreter) rangeMap(fr *frame, m *omap) iter {
 	it := &omapIter{m: m}
 	if m == nil {
 		return it
+	}
+	if m.assoc {
+		unmodelled("range over a map with symbolic keys")
 	}
 	// entries may have been reset by delete-all: positions refer to current slice
 	var live []int
